@@ -631,3 +631,70 @@ Example seq_example :
   /\ map (fun o => (fst (fst o), snd (fst o))) (krun [3; 5; 3; 5; 7]) = [(1,0); (1,1); (0,0); (0,1); (1,4)]
   /\ miss_tags (krun [3; 5; 3; 5; 7]) = [0; 1; 4].
 Proof. repeat split; vm_compute; reflexivity. Qed.
+
+(* ---- the decorator's own dict (cache=None, Keys.KDefault): the private store plays the role of the user mapping ---- *)
+Definition kexec_default := Keys.exec Keys.spec_expr Keys.IfNotNone Keys.KDefault false.
+Definition krun_default (ks : list nat) : list Keys.obs :=
+  Keys.run Keys.spec_expr Keys.IfNotNone Keys.KDefault false (map kcall ks).
+
+(* on event lists made of calls only, the (invocations, tag) components of the two runs coincide
+   (the third component, the content of the USER mapping, of course differs) *)
+Lemma kexec_default_same : forall ks a u1 p2 c,
+  map fst (fst (kexec_default (map kcall ks) (Keys.mkcst u1 a c)))
+  = map fst (fst (kexec (map kcall ks) (Keys.mkcst a p2 c))).
+Proof.
+  induction ks as [|k r IH]; intros a u1 p2 c; [reflexivity|].
+  assert (C1 : forall x r0 st, kexec_default (x :: r0) st =
+            (let '(st1, o) := Keys.step Keys.spec_expr Keys.IfNotNone Keys.KDefault false x st in
+             let '(os, st2) := kexec_default r0 st1 in (o :: os, st2))) by reflexivity.
+  change (map kcall (k :: r)) with (Keys.Call (Keys.mksig [k] []) :: map kcall r). rewrite C1, kexec_cons.
+  unfold Keys.step, Keys.active, Keys.set_active, Keys.use_user, Keys.tick, Keys.content.
+  simpl Keys.user. simpl Keys.priv. simpl Keys.cnt.
+  destruct (Keys.kfind (Keys.eval_key Keys.spec_expr (Keys.mksig [k] [])) a) as [en|].
+  - specialize (IH (Keys.touch en a) u1 p2 (S c)).
+    destruct (kexec_default (map kcall r) _) as [o1 s1].
+    destruct (kexec (map kcall r) _) as [o2 s2]. simpl in *. f_equal. exact IH.
+  - specialize (IH (Keys.insert None (Keys.eval_key Keys.spec_expr (Keys.mksig [k] [])) c a) u1 p2 (S c)).
+    simpl Keys.cap_of.
+    destruct (kexec_default (map kcall r) _) as [o1 s1].
+    destruct (kexec (map kcall r) _) as [o2 s2]. simpl in *. f_equal. exact IH.
+Qed.
+
+Lemma krun_default_same ks : map fst (krun_default ks) = map fst (krun ks).
+Proof. exact (kexec_default_same ks [] [] [] 0). Qed.
+
+Lemma miss_tags_ext : forall obs1 obs2 : list Keys.obs, map fst obs1 = map fst obs2 -> miss_tags obs1 = miss_tags obs2.
+Proof.
+  induction obs1 as [|a r IH]; intros [|b r2] H; simpl in H; try discriminate; auto.
+  injection H as Hab Hr. specialize (IH _ Hr). unfold miss_tags in *. simpl. rewrite Hab.
+  destruct (fst (fst b) =? 1); simpl; rewrite IH, ?Hab; reflexivity.
+Qed.
+
+Lemma seq_call_refines_keys_default : forall ks,
+  map fst (seq_outcomes ks) =
+  map (fun o => fst (fst o))
+      (Keys.run Keys.spec_expr Keys.IfNotNone Keys.KDefault false
+                (map (fun k => Keys.Call (Keys.mksig [k] [])) ks)).
+Proof.
+  intros ks. rewrite seq_call_refines_keys.
+  change (map (fun o => fst (fst o)) (krun ks) = map (fun o => fst (fst o)) (krun_default ks)).
+  rewrite <- !(map_map fst fst). rewrite krun_default_same. reflexivity.
+Qed.
+
+Lemma seq_same_invocation_default : forall ks,
+  Forall2 (fun o ob => nth_error (miss_tags (krun_default ks)) (snd o) = Some (snd (fst ob)))
+          (seq_outcomes ks) (krun_default ks).
+Proof.
+  intros ks. rewrite (miss_tags_ext _ _ (krun_default_same ks)).
+  pose proof (seq_same_invocation ks) as H. pose proof (krun_default_same ks) as E.
+  revert H E. generalize (miss_tags (krun ks)) as mt. generalize (krun_default ks) as od.
+  generalize (krun ks) as ou. generalize (seq_outcomes ks) as os.
+  induction os as [|o os IH]; intros ou od mt H E; inversion H; subst.
+  - destruct od; [constructor|discriminate].
+  - destruct od as [|b od]; [discriminate|]. simpl in E. injection E as Eb Er.
+    constructor; [rewrite Eb; assumption|eapply IH; eauto].
+Qed.
+
+Example seq_example_default :
+  map (fun o => (fst (fst o), snd (fst o))) (krun_default [3; 5; 3; 5; 7]) = [(1,0); (1,1); (0,0); (0,1); (1,4)].
+Proof. vm_compute. reflexivity. Qed.
